@@ -61,6 +61,7 @@ theorem StepR.to_lockT {sh th o} (h : StepR sh th o) {r : Reg} (hpc : o.th.pc = 
   case claimed hsh => exact absurd hpc (hsh.running.2.2.2.2 r)
   case spawn hsh => exact absurd hpc (hsh.running.2.2.2.2 r)
   case exit hsh => exact absurd hpc (hsh.running.2.2.2.2 r)
+  case lockDeadSync hsh => exact absurd hpc (hsh.running.2.2.2.2 r)
   case turnRun j hpc' hj hturn hl => exact ⟨j, hpc', hj, hturn, rfl⟩
   all_goals simp_all
 
@@ -78,6 +79,7 @@ theorem StepR.prog_src {sh th o} (h : StepR sh th o) (rid : Nat) (hp : prog rid 
   case claimed hpc hfr hsh => exact .inl (shp hsh (by simp [idle, hpc]) hp)
   case spawn hpc hfr hsh => exact .inl (shp hsh (by simp [idle, hpc]) hp)
   case exit hpc hfr hj hsh => exact .inl (shp hsh (by simp [idle, hpc]) hp)
+  case lockDeadSync hpc hfr hj hfree hl hsh => exact .inl (shp hsh (by simp [idle, hpc]) hp)
   case turnRun => exact .inr ⟨_, rfl⟩
   case astartRun j hpc hj hs hl => simp [prog, hj, hs] at hp
   all_goals
@@ -85,14 +87,23 @@ theorem StepR.prog_src {sh th o} (h : StepR sh th o) (rid : Nat) (hp : prog rid 
     clear shp
     cases hj' : th.job <;> simp_all [prog, idle]
 
-/-- the step of a goroutine parked at "handler.lock" -/
-theorem StepR.lock_inv {sh th o} (h : StepR sh th o) {r : Reg} {a : Bool} (hpc : th.pc = .lock r a) :
+/-- the step of a goroutine parked at "handler.lock" that makes an asynchronous entry: the publish context is live, the
+goroutine takes the mutex and enters the handler (the other outcomes – the context is dead, the handler is skipped –
+produce no asynchronous entry) -/
+theorem step_lock_inv {sh th o} (hs : step sh th = some o) {r : Reg} {a : Bool} (hpc : th.pc = .lock r a)
+    (hE : o.obs.filter Obs.isAsyncEnter ≠ []) :
     o.th.pc = .enter r ∧ o.new = [] ∧ o.sh.serving = sh.serving := by
-  cases h
-  case lock r' a' f fs hpc' hfr hfree =>
-    rw [hpc] at hpc'; cases hpc'
-    exact ⟨rfl, rfl, by simp⟩
-  all_goals simp_all
+  unfold step at hs
+  split at hs
+  · cases hs
+  simp only [hpc] at hs
+  split at hs
+  · split at hs
+    · split at hs
+      · cases hs; simp at hE
+      · cases hs; simp at hE
+    · cases hs; exact ⟨rfl, rfl, by simp⟩
+  · cases hs
 
 /-- the step of a Sequential goroutine parked at "async.start" produces no event -/
 theorem StepR.astart_inv {sh th o} (h : StepR sh th o) {j : Job} (hpc : th.pc = .astart) (hj : th.job = some j)
@@ -294,7 +305,7 @@ theorem entryTickets_step {progs : List (List Op)} {x : SysT} {i : Nat} {th : Th
     (hth : x.s.ths[i]? = some th) (hs : step x.s.sh th = some o) (rid : Nat) (hseq : SeqJobs x.s rid) :
     asyncEntryTickets { s := { sh := o.sh, ths := x.s.ths.set i o.th ++ o.new }, tr := x.tr ++ o.obs.map (fun e => (i, e)) } rid =
         asyncEntryTickets x rid ∨
-    ∃ r j, th.pc = .lock r true ∧ r.rid = rid ∧ th.job = some j ∧ j.reg = r ∧
+    ∃ r j, th.pc = .lock r true ∧ r.rid = rid ∧ th.job = some j ∧ j.reg = r ∧ o.obs.filter Obs.isAsyncEnter ≠ [] ∧
       asyncEntryTickets { s := { sh := o.sh, ths := x.s.ths.set i o.th ++ o.new }, tr := x.tr ++ o.obs.map (fun e => (i, e)) } rid =
         asyncEntryTickets x rid ++ [j.ticket] := by
   generalize hx' : ({ s := { sh := o.sh, ths := x.s.ths.set i o.th ++ o.new }, tr := x.tr ++ o.obs.map (fun e => (i, e)) } : SysT) = x'
@@ -366,7 +377,7 @@ theorem entryTickets_step {progs : List (List Op)} {x : SysT} {i : Nat} {th : Th
           simp only [ThOK, h] at hok'
           obtain ⟨_, _, j', hj', hjr⟩ := hok'
           rw [hj] at hj'; cases hj'
-          refine ⟨r, j, h, hjr ▸ hrid, rfl, hjr, ?_⟩
+          refine ⟨r, j, h, hjr ▸ hrid, rfl, hjr, hE, ?_⟩
           rw [hsplit, hE']
           simp [theEnter, pick, hrid, htk' j hj]
       · left
@@ -411,7 +422,7 @@ theorem ordInv_reachable {progs : List (List Op)} :
       rw [List.getElem?_append_right (by simpa using hlen')] at hk
       exact ((step_obs hs).2.1 th' (List.mem_of_getElem? hk)).2
     simp only at one'
-    rcases entryTickets_step hrT hth hs rid hseq with hL | ⟨r, j, hpc, hrid, hj, hjr, hL⟩
+    rcases entryTickets_step hrT hth hs rid hseq with hL | ⟨r, j, hpc, hrid, hj, hjr, hE, hL⟩
     · refine ⟨by rw [hL]; exact iA, ?_, ?_⟩
       · intro t ht
         rw [hL] at ht
@@ -440,7 +451,7 @@ theorem ordInv_reachable {progs : List (List Op)} :
           have := iD k th' r hk hpc' hrid t ht
           omega
     · -- the goroutine in its turn enters the handler: its ticket is the one being served
-      obtain ⟨hpc', hnew, hsame⟩ := hR.lock_inv hpc
+      obtain ⟨hpc', hnew, hsame⟩ := step_lock_inv hs hpc hE
       have p1 : prog rid th = 1 := prog_lockT hok hpc hrid
       have htk := turnTicket_reachable x.s hr rid i th j hth hj p1
       have hge := wsum_ge (prog rid) hth
